@@ -291,6 +291,9 @@ struct Plan {
     groups: Vec<Group>,
     alpha: std::collections::HashMap<&'static str, Vec<Vec<u8>>>,
     seeds: std::collections::HashMap<&'static str, Vec<Vec<u8>>>,
+    /// `uni` of the alphabet lines: one multi-byte representative per Unicode class that Rust's char predicates and
+    /// case mappings distinguish (Mutants.tla UniVals); the random generator draws from it too
+    uni: Vec<Vec<u8>>,
     random: u64,
     random_maxlen: usize,
     deep: Vec<usize>,
@@ -305,6 +308,7 @@ impl Plan {
             groups: Vec::new(),
             alpha: Default::default(),
             seeds: Default::default(),
+            uni: Vec::new(),
             random: 0,
             random_maxlen: 64,
             deep: Vec::new(),
@@ -328,6 +332,9 @@ impl Plan {
                 "alpha" => {
                     let syms: Vec<Vec<u8>> = v["syms"].as_array().expect("syms").iter().map(bytes_of).collect();
                     plan.alpha.insert(p, syms);
+                    if let Some(u) = v["uni"].as_array() {
+                        plan.uni = u.iter().map(bytes_of).collect();
+                    }
                     plan.groups.push(Group::Alpha);
                 }
                 "short" => {
@@ -405,7 +412,7 @@ impl Plan {
                     let k = rng.range(5, 40);
                     let mut b = Vec::new();
                     for _ in 0..k {
-                        let t: &Vec<u8> = rng.pick(&syms[..]);
+                        let t: &Vec<u8> = if !self.uni.is_empty() && rng.chance(1, 6) { rng.pick(&self.uni[..]) } else { rng.pick(&syms[..]) };
                         b.extend_from_slice(t);
                     }
                     ("rand-alpha", b)
@@ -429,7 +436,7 @@ impl Plan {
                                 b[a] = rng.byte();
                             }
                             3 => {
-                                let t: Vec<u8> = rng.pick(&syms[..]).clone();
+                                let t: Vec<u8> = if !self.uni.is_empty() && rng.chance(1, 2) { rng.pick(&self.uni[..]).clone() } else { rng.pick(&syms[..]).clone() };
                                 for (k, x) in t.iter().enumerate() {
                                     b.insert(at + k, *x);
                                 }
